@@ -8,9 +8,13 @@
    Checked: custody (C01), LP accounting and value per LP (C02), x*y never decreases and round trips
    never profit (C03), conservation and fee routing (C04), single-asset deposit residue (C14),
    feature switches (C17). *)
-EXTENDS Integers, FiniteSets, FiniteSetsExt, Sequences, TLC
-CONSTANTS MaxOps, SwapAmts, BurnAmts, MinLiqM
-DepAmts == {<<4, 9>>, <<10, 10>>, <<7, 3>>}
+EXTENDS Integers, FiniteSets, FiniteSetsExt, Sequences, TLC, Json
+CONSTANTS MaxOps, SwapAmts, BurnAmts, MinLiqM,
+          Scale,      \* 1 in the exhaustive configurations; 1000 when behaviours are generated for replay on the real
+                      \* contracts (MC_Pool_sim.cfg), whose minimum liquidity is 1000
+          Protect     \* TRUE for replay: routes and single-asset deposits stay clear of the 50 % price-impact cap, which
+                      \* the real contract enforces with an 18-digit price the integer model does not carry
+DepAmts == {<<4 * Scale, 9 * Scale>>, <<10 * Scale, 10 * Scale>>, <<7 * Scale, 3 * Scale>>}
 FeeA == <<1, 2, 1>>    \* pool A: protocol 1%, swap 2%, burn 1%
 FeeB == <<0, 0, 0>>    \* pool B: no fees
 
@@ -30,10 +34,11 @@ Denoms == Base \cup {"lpA", "lpB"}
 Users == {"t", "l"}
 Accts == Users \cup {"pm", "fc"}
 Fee(q) == IF q = "A" THEN FeeA ELSE FeeB      \* [protocol, swap, burn] in percent
-Start == 60
+Start == 60 * Scale
 
-VARIABLES ops, bank, burned, pools, last
-vars == <<ops, bank, burned, pools, last>>
+VARIABLES ops, bank, burned, pools, last,
+          trace      \* history of operations with the state each one leaves (hidden by VIEW; printed for replay)
+vars == <<ops, bank, burned, pools, last, trace>>
 View == <<ops, bank, burned, pools>>
 
 Init == /\ ops = 0
@@ -41,6 +46,7 @@ Init == /\ ops = 0
         /\ burned = [d \in Denoms |-> 0]
         /\ pools = [q \in PoolIds |-> [res |-> <<0, 0>>, supply |-> 0, sw |-> TRUE, dep |-> TRUE, wd |-> TRUE]]
         /\ last = [op |-> "init"]
+        /\ trace = <<>>
 
 Move(b, from, to, d, x) == [b EXCEPT ![from][d] = @ - x, ![to][d] = @ + x]
 Mint(b, to, d, x) == [b EXCEPT ![to][d] = @ + x]
@@ -66,8 +72,11 @@ SwapEffect(S, q, o, dx, from, to) ==
       b4 == [b3 EXCEPT !["pm"][ad] = @ - c.burn]
   IN [bank |-> b4, burned |-> [S.burned EXCEPT ![ad] = @ + c.burn],
       pools |-> [S.pools EXCEPT ![q].res = [pl.res EXCEPT ![o] = @ + dx, ![c.a] = @ - (c.ret + c.protocol + c.burn)]]]
-RECURSIVE Isqrt(_, _)
-Isqrt(v, r) == IF (r + 1) * (r + 1) > v THEN r ELSE Isqrt(v, r + 1)
+(* floor(sqrt(v)) by bisection (the replay configuration reaches 10^8) *)
+RECURSIVE IsqrtB(_, _, _)
+IsqrtB(v, lo, hi) == IF lo >= hi THEN lo
+                     ELSE LET mid == (lo + hi + 1) \div 2 IN IF mid * mid <= v THEN IsqrtB(v, mid, hi) ELSE IsqrtB(v, lo, mid - 1)
+Isqrt(v, r) == IsqrtB(v, 0, IF v < 46340 THEN v ELSE 46340)
 MintCalc(pl, dep) ==
   IF pl.supply = 0 THEN Isqrt(dep[1] * dep[2], 0) - MinLiqM
   ELSE P!Min(P!CpShare(dep[1], pl.supply, pl.res[1]), P!CpShare(dep[2], pl.supply, pl.res[2]))
@@ -81,14 +90,22 @@ DepositEffect(S, q, dep, from, to) ==
   IN [bank |-> b3, burned |-> S.burned,
       pools |-> [S.pools EXCEPT ![q].res = <<pl.res[1] + dep[1], pl.res[2] + dep[2]>>, ![q].supply = @ + m + (IF first THEN MinLiqM ELSE 0)]]
 Cur == [bank |-> bank, burned |-> burned, pools |-> pools]
-Adopt(S, lab) == bank' = S.bank /\ burned' = S.burned /\ pools' = S.pools /\ last' = lab
+(* what a replay compares with the real contracts: reserves, supply and switches of both pools, and the change of every
+   user's and the fee collector's balances since the start *)
+Summary(S) ==
+  [pools |-> [q \in PoolIds |-> [r1 |-> S.pools[q].res[1], r2 |-> S.pools[q].res[2], supply |-> S.pools[q].supply,
+                                  sw |-> S.pools[q].sw, dep |-> S.pools[q].dep, wd |-> S.pools[q].wd]],
+   bank |-> [a \in Users \cup {"fc"} |-> [d \in Denoms |-> S.bank[a][d] - (IF a \in Users /\ d \in Base THEN Start ELSE 0)]]]
+Adopt(S, lab) == /\ bank' = S.bank /\ burned' = S.burned /\ pools' = S.pools /\ last' = lab
+                 /\ trace' = Append(trace, lab @@ [post |-> Summary(S)])
+Calm(res, dx) == Protect => 4 * dx <= res        \* an offer of at most a quarter of the reserve loses well under 50 %
 
 (* ---------------------------------------------------------------- actions *)
 Deposit(u, q, dep) ==
   /\ pools[q].dep /\ dep[1] > 0 /\ dep[2] > 0
   /\ bank[u][Assets(q)[1]] >= dep[1] /\ bank[u][Assets(q)[2]] >= dep[2]
   /\ MintCalc(pools[q], dep) > 0
-  /\ Adopt(DepositEffect(Cur, q, dep, u, u), [op |-> "deposit", q |-> q])
+  /\ Adopt(DepositEffect(Cur, q, dep, u, u), [op |-> "deposit", q |-> q, u |-> u, a1 |-> dep[1], a2 |-> dep[2]])
 Withdraw(u, q, b) ==
   LET pl == pools[q]
       p1 == P!WithdrawFloor(pl.res[1], b, pl.supply)
@@ -97,10 +114,10 @@ Withdraw(u, q, b) ==
       b2 == Move(Move(b1, "pm", u, Assets(q)[1], p1), "pm", u, Assets(q)[2], p2)
   IN /\ pl.wd /\ b > 0 /\ bank[u][Lp(q)] >= b /\ (p1 > 0 \/ p2 > 0)
      /\ Adopt([bank |-> b2, burned |-> burned, pools |-> [pools EXCEPT ![q].res = <<pl.res[1] - p1, pl.res[2] - p2>>, ![q].supply = @ - b]],
-              [op |-> "withdraw", q |-> q])
+              [op |-> "withdraw", q |-> q, u |-> u, b |-> b])
 Swap(u, q, o, dx) ==
   /\ SwapCalc(pools[q], q, o, dx).ok /\ bank[u][Assets(q)[o]] >= dx
-  /\ Adopt(SwapEffect(Cur, q, o, dx, u, u), [op |-> "swap", q |-> q, o |-> o])
+  /\ Adopt(SwapEffect(Cur, q, o, dx, u, u), [op |-> "swap", q |-> q, o |-> o, u |-> u, dx |-> dx])
 (* route of two hops: (q1, o1) then (q2, o2); the intermediate output stays in the contract *)
 Route(u, q1, o1, q2, o2, dx) ==
   LET c1 == SwapCalc(pools[q1], q1, o1, dx)
@@ -109,7 +126,8 @@ Route(u, q1, o1, q2, o2, dx) ==
       S2 == SwapEffect(S1, q2, o2, c1.ret, "pm", u)
   IN /\ c1.ok /\ bank[u][Assets(q1)[o1]] >= dx /\ Assets(q1)[c1.a] = Assets(q2)[o2]
      /\ c2.ok
-     /\ Adopt(S2, [op |-> "route", q |-> q1, q2 |-> q2])
+     /\ Calm(pools[q1].res[o1], dx) /\ Calm(S1.pools[q2].res[o2], c1.ret)
+     /\ Adopt(S2, [op |-> "route", q |-> q1, q2 |-> q2, u |-> u, o1 |-> o1, o2 |-> o2, dx |-> dx])
 (* single-asset deposit: swap floor(amt/2), then deposit that half and the proceeds; the odd unit stays *)
 Single(u, q, o, amt) ==
   LET half == amt \div 2
@@ -120,12 +138,13 @@ Single(u, q, o, amt) ==
       S2 == DepositEffect(S1b, q, dep, "pm", u)
   IN /\ pools[q].dep /\ pools[q].supply > 0 /\ c.ok /\ c.ret > 0 /\ bank[u][Assets(q)[o]] >= amt
      /\ MintCalc(S1.pools[q], dep) > 0
-     /\ Adopt(S2, [op |-> "single", q |-> q, odd |-> amt - 2 * half, d |-> Assets(q)[o]])
+     /\ Calm(pools[q].res[o], half)
+     /\ Adopt(S2, [op |-> "single", q |-> q, odd |-> amt - 2 * half, d |-> Assets(q)[o], u |-> u, o |-> o, amt |-> amt])
 Donate(u, d, x) == bank[u][d] >= x /\ Adopt([bank |-> Move(bank, u, "pm", d, x), burned |-> burned, pools |-> pools], [op |-> "donate", d |-> d, x |-> x])
 Toggle(q, k) ==
   Adopt([bank |-> bank, burned |-> burned,
          pools |-> [pools EXCEPT ![q] = IF k = 1 THEN [@ EXCEPT !.sw = ~@] ELSE IF k = 2 THEN [@ EXCEPT !.dep = ~@] ELSE [@ EXCEPT !.wd = ~@]]],
-        [op |-> "toggle", q |-> q])
+        [op |-> "toggle", q |-> q, k |-> k])
 
 Op == \/ \E u \in Users, q \in PoolIds, dep \in DepAmts : Deposit(u, q, dep)
       \/ \E u \in Users, q \in PoolIds : \E b \in BurnAmts \cup {bank[u][Lp(q)]} : Withdraw(u, q, b)
@@ -133,7 +152,7 @@ Op == \/ \E u \in Users, q \in PoolIds, dep \in DepAmts : Deposit(u, q, dep)
       \/ \E u \in Users, dx \in SwapAmts : \/ Route(u, "A", 1, "B", 1, dx) \/ Route(u, "B", 2, "A", 2, dx)
                                            \/ Route(u, "A", 1, "A", 2, dx)      \* revisits pool A: a round trip
       \/ \E u \in Users, q \in PoolIds, o \in {1, 2}, amt \in SwapAmts : Single(u, q, o, amt)
-      \/ \E d \in Base, x \in {1, 5} : Donate("l", d, x)
+      \/ \E d \in Base, x \in {1, 5 * Scale} : Donate("l", d, x)
       \/ \E q \in PoolIds, k \in 1..3 : Toggle(q, k)
 Next == ops < MaxOps /\ ops' = ops + 1 /\ Op
 Spec == Init /\ [][Next]_vars
@@ -165,4 +184,6 @@ C17_DisabledDepositsNeverMint ==
   [][\A q \in PoolIds : (~pools[q].dep /\ pools'[q].supply > pools[q].supply) => FALSE]_vars
 C17_DisabledWithdrawalsNeverBurn ==
   [][\A q \in PoolIds : (~pools[q].wd /\ pools'[q].supply < pools[q].supply) => FALSE]_vars
+(* ---------------------------------------------------------------- behaviours for replay (MC_Pool_sim.cfg) *)
+PrintReplay == ops = MaxOps => PrintT(<<"REPLAY", ToJson(trace)>>)
 =============================================================================
